@@ -15,9 +15,12 @@ import (
 // executes exactly these ops, it never regenerates them from a seed.
 type Op struct {
 	K string `json:"k"` // sign | jump | walk | crash
-	// sign: message = MsgBytes(MS, ML)
+	// sign: message = MsgBytes(MS, ML); MK varies its shape: "" plain, "nil" (nil
+	// slice), "cap" (spare capacity behind the message), "prevsig" (the message is
+	// the very slice the key returned as its previous signature)
 	ML int    `json:"ml,omitempty"`
 	MS uint64 `json:"ms,omitempty"`
+	MK string `json:"mk,omitempty"`
 	// jump: SetIndex(J) - valid or not is decided by the model, not the op
 	J uint32 `json:"j,omitempty"`
 	// walk: N consecutive steps, each a sign (Via=sign) or SetIndex(idx+1) (Via=unit)
